@@ -19,7 +19,7 @@ import (
 )
 
 func init() {
-	register("C09", "Decides, for every byte string at once, the error-class and crash-site clauses: (R09.1) error-class summaries computed as a fixpoint over the call graph show that every error ReceiveProbe / ReadHandshake / a module Source.Read can return is nil, carries one of the two retryable wrapper types, is an I/O failure of the capture handle, depends on driver state only, or is one of the two SACK capability verdicts; an error whose cause is the CONTENT of the buffer (a gopacket/x-net decode error, or an error created under a branch on packet-derived data) that reaches an engine without a retryable wrapper is reported with the chain that introduced it, and a Source.Read that can return a zero count on success for content reasons is reported; (R09.2) in both engines and in ReadHandshake the CheckProbeRetryable-true edge leads back to the read with no write to run state, and CheckProbeRetryable recognises exactly the two retryable types through errors.As; (R09.3) no panic, Must* or log.Fatal* call is reachable from ReceiveProbe/ReadHandshake inside the module, the SACK matcher dereferences its handshake state only behind IsHandshakeFinished, and (thorough tier) the bounds checks the Go compiler cannot eliminate in functions on the inbound path are exactly the reviewed table. Panics inside gopacket's DecodeFromBytes when called outside DecodeLayers' recover, and inside x/net's icmp.ParseMessage, are third-party and not decided. (R09.3d) Every direct gopacket layer decode reachable from the inbound roots passes a non-nil DecodeFeedback (the decoders call df.SetTruncated() on short input). Premises are read from inlined paths: Parse is given buffer[:n] with n the count of the read into that buffer; an error created exactly when Source.Read returned a zero count is a handle fault, not content. The bounds prover also uses the Read contract (buf[:n]), minimum lengths established at every call site of a helper, constants passed for an index parameter, and len converted to an unsigned type.", runC09)
+	register("C09", "Decides, for every byte string at once, the error-class and crash-site clauses: (R09.1) error-class summaries computed as a fixpoint over the call graph show that every error ReceiveProbe / ReadHandshake / a module Source.Read can return is nil, carries one of the two retryable wrapper types, is an I/O failure of the capture handle, depends on driver state only, or is one of the two SACK capability verdicts; an error whose cause is the CONTENT of the buffer (a gopacket/x-net decode error, or an error created under a branch on packet-derived data) that reaches an engine without a retryable wrapper is reported with the chain that introduced it, and a Source.Read that can return a zero count on success for content reasons is reported; (R09.2) in both engines and in ReadHandshake the CheckProbeRetryable-true edge leads back to the read with no write to run state, and CheckProbeRetryable recognises exactly the two retryable types through errors.As; (R09.3) no panic, Must* or log.Fatal* call is reachable from ReceiveProbe/ReadHandshake inside the module, the SACK matcher dereferences its handshake state only behind IsHandshakeFinished, and (thorough tier) the bounds checks the Go compiler cannot eliminate in functions on the inbound path are exactly the reviewed table. Panics inside gopacket's DecodeFromBytes when called outside DecodeLayers' recover, and inside x/net's icmp.ParseMessage, are third-party and not decided. (R09.3d) Every direct gopacket layer decode reachable from the inbound roots passes a non-nil DecodeFeedback (the decoders call df.SetTruncated() on short input). Premises are read from inlined paths: Parse is given buffer[:n] with n the count of the read into that buffer; an error created exactly when Source.Read returned a zero count is a handle fault, not content. The bounds prover also uses the Read contract (buf[:n]), minimum lengths established at every call site of a helper, constants passed for an index parameter, and len converted to an unsigned type. R01.10 (address family kept by the IPv6 pair builder) and the deadline-sentinel-identity premise are part of this check.", runC09)
 	darwinRules["C09"] = runC09Darwin
 }
 
